@@ -31,7 +31,11 @@ CONSTANTS
   Forget,       \* subset of ForgetClasses
   MaxHeld,      \* bound on simultaneously live caller handles
   EnvAliased,   \* BOOLEAN: may the caller mutate an object that IS aliased
-  Layouts       \* subset of {"full","compact"}
+  Layouts,      \* subset of {"full","compact"}
+  Results,      \* BOOLEAN: model the result holders (mesh, random displacements, snapshots)
+  Repaired      \* BOOLEAN: _set_dynamical_matrix() drops the mesh and the random-displacement
+                \* generator when a state change rebuilds the dynamical matrix (fixes/c15-stale-mesh.md);
+                \* FALSE = the code as found, which keeps them
 
 Setters == {"fc_setter", "nac_setter", "dataset_setter", "masses_setter", "forces_setter"}
 Getters == {"fc_getter", "nac_getter", "dataset_getter", "masses_getter", "displacements_getter",
@@ -43,6 +47,7 @@ ForgetClasses ==
 
 ASSUME Alias \subseteq AliasClasses /\ Forget \subseteq ForgetClasses
 ASSUME MaxHeld \in 0..3 /\ EnvAliased \in BOOLEAN /\ Layouts \subseteq {"full", "compact"}
+ASSUME Results \in BOOLEAN /\ Repaired \in BOOLEAN
 
 (* which internal datum an API point hands in / out                          *)
 SlotOf(c) == CASE c \in {"fc_setter", "fc_getter"} -> "fc"
@@ -70,21 +75,43 @@ VARIABLES
   cp,      \* last copy(): [on, ok, shared]; ok = its content is what its owner made it
   held,    \* sequence of caller handles [cls, alias, ok]; ok = content is what the caller made it
   taint,   \* alias classes through which the caller has changed internal state
+  rs,      \* result holders [mesh, rd, qp, tp]:
+           \*   mesh = Phonopy._mesh [st, full, kind, own]: st "none"|"cur"|"old" = the contents it
+           \*          was set up from vs the current ones; full = with eigenvectors, no symmetry
+           \*          reduction; kind "run" (computed) | "lazy" (init_mesh, computes on first
+           \*          access) | "iter" (IterMesh, computes while iterated); own = it holds the
+           \*          current DynamicalMatrix object
+           \*   rd   = Phonopy._random_displacements (init_random_displacements): "none"|"cur"|"old"
+           \*   qp   = snapshot of run_qpoints / run_band_structure results
+           \*   tp   = snapshot of the results derived from the mesh (thermal properties, DOS, ...)
   last     \* label of the last action (for replay; not part of the VIEW)
 
-vars == <<layout, nacm, massS, massU, dsT, dsF, dm, gv, scd, cp, held, taint, last>>
+vars == <<layout, nacm, massS, massU, dsT, dsF, dm, gv, scd, cp, held, taint, rs, last>>
 (* group ids are names: renumber them by first occurrence                    *)
 NormHeld(hs) ==
   [j \in 1..Len(hs) |->
      LET firstj == CHOOSE a \in 1..j : hs[a].grp = hs[j].grp /\ \A b \in 1..(a - 1) : hs[b].grp # hs[j].grp
      IN [hs[j] EXCEPT !.grp = Cardinality({hs[b].grp : b \in 1..firstj})]]
-view == <<layout, nacm, massS, massU, dsT, dsF, dm, gv, scd, cp, NormHeld(held), taint>>
+view == <<layout, nacm, massS, massU, dsT, dsF, dm, gv, scd, cp, NormHeld(held), taint, rs>>
 
 NoDM == [on |-> FALSE, fc |-> "cur", shared |-> FALSE, nac |-> "cur", cls |-> "plain", sr |-> "none"]
 NoCP == [on |-> FALSE, ok |-> TRUE, shared |-> FALSE]
 ClassOf(m) == IF m = "none" THEN "plain" ELSE m
 HasFC == layout # "none"
 Age(x) == IF x = "cur" THEN "old" ELSE x     \* the content x refers to has been superseded
+NoMesh == [st |-> "none", full |-> FALSE, kind |-> "run", own |-> FALSE]
+NoRS == [mesh |-> NoMesh, rd |-> "none", qp |-> "none", tp |-> "none"]
+(* results when the content `what` ("fc" | "nac" | "mass") they were computed from is superseded  *)
+(* (chg = FALSE: the content did not actually change); the random-displacement generator is built *)
+(* from force constants and masses only.  rebuilt: the dynamical matrix object is replaced.       *)
+Aged(r, what, chg, rebuilt) ==
+  [mesh |-> [r.mesh EXCEPT !.st = IF chg THEN Age(@) ELSE @, !.own = IF rebuilt THEN FALSE ELSE @],
+   rd |-> IF chg /\ what # "nac" THEN Age(r.rd) ELSE r.rd,
+   qp |-> IF chg THEN Age(r.qp) ELSE r.qp, tp |-> IF chg THEN Age(r.tp) ELSE r.tp]
+(* ... by a public state change that runs _set_dynamical_matrix()                                  *)
+AfterStateChange(r, what, chg) ==
+  LET a == Aged(r, what, chg, TRUE)
+  IN IF Repaired THEN [a EXCEPT !.mesh = NoMesh, !.rd = "none"] ELSE a
 
 -----------------------------------------------------------------------------
 (* MECHANISM: Phonopy._set_dynamical_matrix() and the caches                 *)
@@ -134,16 +161,22 @@ InPlace(hs, slot) ==
 Init ==
   /\ layout = "none" /\ nacm = "none" /\ massS = "cur" /\ massU = "cur"
   /\ dsT = "none" /\ dsF = FALSE /\ dm = NoDM /\ gv = "none" /\ scd = "none" /\ cp = NoCP
-  /\ held = <<>> /\ taint = {} /\ last = [op |-> "Init"]
+  /\ held = <<>> /\ taint = {} /\ rs = NoRS /\ last = [op |-> "Init"]
 
 (* ph.force_constants = array (api_phonopy.py:777-792)                       *)
-SetFC(lay, keep) ==
+(* own: the caller hands in a C-contiguous float64 array that owns its data  *)
+(* (the only case the code stores without copying); otherwise a list, a     *)
+(* view, a Fortran-ordered or a float32 array                                *)
+SetFC(lay, keep, own) ==
   /\ layout' = lay
-  /\ held' = IF keep THEN Hand(Unalias(held, {"fc"}), "fc_setter") ELSE Unalias(held, {"fc"})
+  /\ held' = LET hs == Unalias(held, {"fc"})
+             IN IF keep /\ Len(hs) < MaxHeld
+                  THEN Append(hs, [NewHandle(hs, "fc_setter") EXCEPT !.alias = @ /\ own])
+                  ELSE hs
   /\ IF "SetFC" \in Forget
-       THEN dm' = DmFcReplaced /\ gv' = gv
-       ELSE dm' = Rebuilt(nacm) /\ gv' = GvAfterRebuild
-  /\ last' = [op |-> "SetFC", lay |-> lay, keep |-> keep]
+       THEN dm' = DmFcReplaced /\ gv' = gv /\ rs' = Aged(rs, "fc", TRUE, FALSE)
+       ELSE dm' = Rebuilt(nacm) /\ gv' = GvAfterRebuild /\ rs' = AfterStateChange(rs, "fc", TRUE)
+  /\ last' = [op |-> "SetFC", lay |-> lay, keep |-> keep, own |-> own]
   /\ UNCHANGED <<nacm, massS, massU, dsT, dsF, scd, cp, taint>>
 
 (* ph.nac_params = dict (916-920): rebuilds only if force constants exist    *)
@@ -151,8 +184,8 @@ SetNAC(m, keep) ==
   /\ nacm' = m
   /\ held' = IF keep THEN Hand(Unalias(held, {"nac"}), "nac_setter") ELSE Unalias(held, {"nac"})
   /\ IF HasFC /\ "SetNAC" \notin Forget
-       THEN dm' = Rebuilt(m) /\ gv' = GvAfterRebuild
-       ELSE dm' = DmNacChanged /\ gv' = gv
+       THEN dm' = Rebuilt(m) /\ gv' = GvAfterRebuild /\ rs' = AfterStateChange(rs, "nac", TRUE)
+       ELSE dm' = DmNacChanged /\ gv' = gv /\ rs' = Aged(rs, "nac", TRUE, FALSE)
   /\ last' = [op |-> "SetNAC", m |-> m, keep |-> keep]
   /\ UNCHANGED <<layout, massS, massU, dsT, dsF, scd, cp, taint>>
 
@@ -160,8 +193,8 @@ ClearNAC ==
   /\ nacm # "none"
   /\ nacm' = "none" /\ held' = Unalias(held, {"nac"})
   /\ IF HasFC /\ "ClearNAC" \notin Forget
-       THEN dm' = Rebuilt("none") /\ gv' = GvAfterRebuild
-       ELSE dm' = DmNacChanged /\ gv' = gv
+       THEN dm' = Rebuilt("none") /\ gv' = GvAfterRebuild /\ rs' = AfterStateChange(rs, "nac", TRUE)
+       ELSE dm' = DmNacChanged /\ gv' = gv /\ rs' = Aged(rs, "nac", TRUE, FALSE)
   /\ last' = [op |-> "ClearNAC"]
   /\ UNCHANGED <<layout, massS, massU, dsT, dsF, scd, cp, taint>>
 
@@ -180,8 +213,8 @@ SetMasses(keep) ==
              IN IF keep THEN Hand(hs, "masses_setter") ELSE hs
   /\ cp' = IF cp.on /\ cp.shared THEN [cp EXCEPT !.ok = FALSE] ELSE cp
   /\ IF HasFC /\ "SetMasses" \notin Forget
-       THEN dm' = Rebuilt(nacm) /\ gv' = GvAfterRebuild
-       ELSE dm' = dm /\ gv' = gv
+       THEN dm' = Rebuilt(nacm) /\ gv' = GvAfterRebuild /\ rs' = AfterStateChange(rs, "mass", TRUE)
+       ELSE dm' = dm /\ gv' = gv /\ rs' = Aged(rs, "mass", TRUE, FALSE)
   /\ last' = [op |-> "SetMasses", keep |-> keep]
   /\ UNCHANGED <<layout, nacm, dsT, dsF, scd, taint>>
 
@@ -192,8 +225,8 @@ InPlaceFC(name, chg) ==
   /\ HasFC
   /\ held' = IF chg THEN InPlace(held, "fc") ELSE held
   /\ IF name \in Forget
-       THEN dm' = DmFcInPlace /\ gv' = gv
-       ELSE dm' = Rebuilt(nacm) /\ gv' = GvAfterRebuild
+       THEN dm' = DmFcInPlace /\ gv' = gv /\ rs' = Aged(rs, "fc", chg, FALSE)
+       ELSE dm' = Rebuilt(nacm) /\ gv' = GvAfterRebuild /\ rs' = AfterStateChange(rs, "fc", chg)
   /\ last' = [op |-> name, chg |-> chg]
   /\ UNCHANGED <<layout, nacm, massS, massU, dsT, dsF, scd, cp, taint>>
 Symmetrize(chg) == InPlaceFC("Symmetrize", chg)                           \* 1274-1305
@@ -207,7 +240,16 @@ SetDataset(f, typ, keep) ==
   /\ held' = LET hs == Unalias(held, {"ds", "dsF"})
              IN IF keep THEN Hand(hs, "dataset_setter") ELSE hs
   /\ last' = [op |-> "SetDataset", f |-> f, typ |-> typ, keep |-> keep]
-  /\ UNCHANGED <<layout, nacm, massS, massU, dm, gv, cp, taint>>
+  /\ UNCHANGED <<layout, nacm, massS, massU, dm, gv, cp, taint, rs>>
+
+(* ph.dataset = None                                                         *)
+ClearDataset ==
+  /\ dsT # "none"
+  /\ dsT' = "none" /\ dsF' = FALSE
+  /\ scd' = IF "SCD" \in Forget THEN Age(scd) ELSE "none"
+  /\ held' = Unalias(held, {"ds", "dsF"})
+  /\ last' = [op |-> "ClearDataset"]
+  /\ UNCHANGED <<layout, nacm, massS, massU, dm, gv, cp, taint, rs>>
 
 (* ph.displacements = array (728-741): type-2 displacements replaced (the    *)
 (* code refuses on a type-1 dataset); forces already in the dataset stay     *)
@@ -221,7 +263,7 @@ SetDisplacements ==
                      ELSE IF held[i].cls = "dataset_getter" /\ held[i].alias THEN [held[i] EXCEPT !.ok = FALSE]
                      ELSE held[i]]
   /\ last' = [op |-> "SetDisplacements"]
-  /\ UNCHANGED <<layout, nacm, massS, massU, dm, gv, cp, taint>>
+  /\ UNCHANGED <<layout, nacm, massS, massU, dm, gv, cp, taint, rs>>
 
 (* ph.forces = array (863-865): copied into the dataset                      *)
 SetForces(keep) ==
@@ -231,7 +273,7 @@ SetForces(keep) ==
                           IF SlotOf(held[i].cls) = "dsF" THEN [held[i] EXCEPT !.alias = FALSE] ELSE held[i]]
              IN IF keep THEN Hand(hs, "forces_setter") ELSE hs
   /\ last' = [op |-> "SetForces", keep |-> keep]
-  /\ UNCHANGED <<layout, nacm, massS, massU, dsT, dm, gv, scd, cp, taint>>
+  /\ UNCHANGED <<layout, nacm, massS, massU, dsT, dm, gv, scd, cp, taint, rs>>
 
 (* ph.produce_force_constants() (1208-1272): a NEW array; only the built-in  *)
 (* finite-difference solver is available, which needs a type-1 dataset      *)
@@ -239,8 +281,8 @@ ProduceFC(lay) ==
   /\ dsT = "t1" /\ dsF
   /\ layout' = lay /\ held' = Unalias(held, {"fc"})
   /\ IF "ProduceFC" \in Forget
-       THEN dm' = DmFcReplaced /\ gv' = gv
-       ELSE dm' = Rebuilt(nacm) /\ gv' = GvAfterRebuild
+       THEN dm' = DmFcReplaced /\ gv' = gv /\ rs' = Aged(rs, "fc", TRUE, FALSE)
+       ELSE dm' = Rebuilt(nacm) /\ gv' = GvAfterRebuild /\ rs' = AfterStateChange(rs, "fc", TRUE)
   /\ last' = [op |-> "ProduceFC", lay |-> lay]
   /\ UNCHANGED <<nacm, massS, massU, dsT, dsF, scd, cp, taint>>
 
@@ -249,13 +291,16 @@ GetSCD ==
   /\ dsT # "none"
   /\ scd' = IF scd = "none" THEN "cur" ELSE scd
   /\ last' = [op |-> "GetSCD"]
-  /\ UNCHANGED <<layout, nacm, massS, massU, dsT, dsF, dm, gv, cp, held, taint>>
+  /\ UNCHANGED <<layout, nacm, massS, massU, dsT, dsF, dm, gv, cp, held, taint, rs>>
 
-(* ph.copy() (3926-3984): a new object from the unit cell                    *)
-Copy ==
+(* ph.copy() (3926-3984): a new object from the unit cell; ph.ph2ph(S)       *)
+(* (3866-3924): a new object with Fourier-interpolated force constants       *)
+Copy(via) ==
+  /\ via \in {"copy", "ph2ph"}
+  /\ via = "ph2ph" => HasFC
   /\ cp' = [on |-> TRUE, ok |-> massU = "cur", shared |-> "copy_shares" \in Alias]
-  /\ last' = [op |-> "Copy"]
-  /\ UNCHANGED <<layout, nacm, massS, massU, dsT, dsF, dm, gv, scd, held, taint>>
+  /\ last' = [op |-> "Copy", via |-> via]
+  /\ UNCHANGED <<layout, nacm, massS, massU, dsT, dsF, dm, gv, scd, held, taint, rs>>
 
 (* getters hand out an object                                                *)
 SlotSet(sl) == CASE sl = "fc" -> HasFC [] sl = "nac" -> nacm # "none" [] sl = "ds" -> dsT # "none"
@@ -266,27 +311,97 @@ Get(c) ==
   /\ c \in {"displacements_getter", "forces_getter"} => dsT = "t2"   \* type-1: a new list is assembled
   /\ held' = Append(held, NewHandle(held, c))
   /\ last' = [op |-> "Get", cls |-> c]
-  /\ UNCHANGED <<layout, nacm, massS, massU, dsT, dsF, dm, gv, scd, cp, taint>>
+  /\ UNCHANGED <<layout, nacm, massS, massU, dsT, dsF, dm, gv, scd, cp, taint, rs>>
 
-(* queries.  "qp" run_qpoints; "qpgv" run_qpoints with group velocities;     *)
-(* "dmq" get_dynamical_matrix_at_q / get_frequencies (these call             *)
+(* queries on the dynamical matrix.  "qp" run_qpoints; "qpgv" with group      *)
+(* velocities; "dmq" get_dynamical_matrix_at_q / get_frequencies (these call *)
 (* _set_dynamical_matrix themselves); "gvq" get_group_velocity_at_q;         *)
-(* "mesh"/"meshgv" run_mesh; "band"/"bandgv" run_band_structure              *)
-QueryKinds == {"qp", "qpgv", "dmq", "gvq", "mesh", "meshgv", "band", "bandgv"}
+(* "band"/"bandgv" run_band_structure; run_mesh: "mesh"/"meshgv" (symmetry   *)
+(* reduced), "meshfull" (eigenvectors, no symmetry); init_mesh only:         *)
+(* "meshlazy" (a Mesh that computes at the first access), "meshiter"         *)
+(* (IterMesh, computes while a consumer iterates over it)                    *)
+DmKinds == {"qp", "qpgv", "dmq", "gvq", "mesh", "meshgv", "band", "bandgv"}
+           \cup (IF Results THEN {"meshfull", "meshlazy", "meshiter"} ELSE {})
+MeshKinds == {"mesh", "meshgv", "meshfull", "meshlazy", "meshiter"}
+(* queries on the mesh held by the object (consumers): thermal properties,   *)
+(* total DOS, moment, get_mesh_dict; projected DOS, thermal displacements    *)
+(* (matrices) need the full mesh, the last two also take an IterMesh;        *)
+(* "rdq": get_random_displacements_at_temperature on the generator           *)
+Consumers == IF Results THEN {"tp", "tdos", "moment", "meshdict", "pdos", "td", "tdm"} ELSE {}
+NeedsFull(k) == k \in {"pdos", "td", "tdm"}
+QueryKinds == DmKinds \cup Consumers \cup (IF Results THEN {"rdq"} ELSE {})
 UsesGV(k) == k \in {"qpgv", "gvq", "meshgv", "bandgv"}
+Computes(k) == k \notin {"meshlazy", "meshiter"}
+Rebuilds(k) == k = "dmq" /\ "DmqNoRebuild" \notin Forget
+BuildSR(d) == IF d.cls = "gonze" /\ d.sr = "none" THEN [d EXCEPT !.sr = d.fc] ELSE d
 (* the caches after the side effects of a query of kind k                    *)
 DmAfterQuery(k) ==
-  LET d0 == IF k = "dmq" /\ "DmqNoRebuild" \notin Forget THEN Rebuilt(nacm) ELSE dm
-  IN IF d0.cls = "gonze" /\ d0.sr = "none" THEN [d0 EXCEPT !.sr = d0.fc] ELSE d0
+  IF k \in DmKinds
+    THEN LET d0 == IF Rebuilds(k) THEN Rebuilt(nacm) ELSE dm
+         IN IF Computes(k) THEN BuildSR(d0) ELSE d0
+  ELSE IF k \in Consumers /\ rs.mesh.kind \in {"lazy", "iter"} /\ rs.mesh.own
+    THEN BuildSR(dm)      \* the mesh computes now, on the DynamicalMatrix object it holds
+    ELSE dm
 GvAfterQuery(k) ==
-  LET g0 == IF k = "dmq" /\ "DmqNoRebuild" \notin Forget THEN GvAfterRebuild ELSE gv
+  LET g0 == IF Rebuilds(k) THEN GvAfterRebuild ELSE gv
   IN IF UsesGV(k) /\ g0 = "none" THEN "cur" ELSE g0
-QueryEnabled(k) == IF k = "dmq" THEN HasFC ELSE dm.on
+QueryEnabled(k) ==
+  CASE k = "dmq" -> HasFC
+    [] k \in DmKinds -> dm.on
+    [] k = "rdq" -> rs.rd # "none"
+    [] OTHER -> /\ rs.mesh.st # "none"
+                /\ NeedsFull(k) => rs.mesh.full
+                /\ rs.mesh.kind = "iter" => k \in {"td", "tdm"}
+
+(* REQUIREMENT side of a query: what a freshly constructed object given the  *)
+(* current force constants, NAC parameters and masses answers (after the     *)
+(* same set-up calls, e.g. run_mesh before run_thermal_properties): it is    *)
+(* built from exactly the current contents                                   *)
+Want(k) == IF k \in DmKinds
+             THEN [fc |-> "cur", nac |-> "cur", cls |-> ClassOf(nacm), gv |-> IF UsesGV(k) THEN "cur" ELSE "na"]
+             ELSE [src |-> "cur"]
+(* MECHANISM side: what this object answers, determined by what its caches   *)
+(* and result holders were built from                                        *)
+Got(k) == IF k \in DmKinds
+            THEN LET d == BuildSR(IF Rebuilds(k) THEN Rebuilt(nacm) ELSE dm)
+                 IN [fc |-> IF d.cls = "gonze" THEN d.sr ELSE d.fc, nac |-> d.nac, cls |-> d.cls,
+                     gv |-> IF UsesGV(k) THEN GvAfterQuery(k) ELSE "na"]
+          ELSE IF k = "rdq" THEN [src |-> rs.rd]
+          ELSE [src |-> rs.mesh.st]
+Prov(k) == IF Got(k) = Want(k) THEN "cur" ELSE "old"
+
+RsAfterQuery(k) ==
+  LET r0 == IF Rebuilds(k) THEN [rs EXCEPT !.mesh.own = FALSE] ELSE rs
+  IN CASE k \in {"qp", "qpgv", "band", "bandgv"} -> [r0 EXCEPT !.qp = Prov(k)]
+       [] k \in MeshKinds ->
+            [r0 EXCEPT !.mesh = [st |-> Prov(k), full |-> k \in {"meshfull", "meshiter"}, own |-> TRUE,
+                                 kind |-> CASE k = "meshlazy" -> "lazy" [] k = "meshiter" -> "iter" [] OTHER -> "run"]]
+       [] k \in Consumers ->
+            [r0 EXCEPT !.tp = IF k = "meshdict" THEN @ ELSE rs.mesh.st,
+                       !.mesh.kind = IF @ = "lazy" THEN "run" ELSE @]
+       [] OTHER -> r0
 Query(k) ==
-  /\ QueryEnabled(k)
+  /\ k \in QueryKinds /\ QueryEnabled(k)
   /\ dm' = DmAfterQuery(k) /\ gv' = GvAfterQuery(k)
+  /\ rs' = IF Results THEN RsAfterQuery(k) ELSE rs
   /\ last' = [op |-> "Query", k |-> k]
   /\ UNCHANGED <<layout, nacm, massS, massU, dsT, dsF, scd, cp, held, taint>>
+
+(* ph.init_random_displacements() (3720-3753): a generator built from the    *)
+(* current force constants (no NAC)                                          *)
+InitRD ==
+  /\ Results /\ HasFC
+  /\ rs' = [rs EXCEPT !.rd = "cur"]
+  /\ last' = [op |-> "InitRD"]
+  /\ UNCHANGED <<layout, nacm, massS, massU, dsT, dsF, dm, gv, scd, cp, held, taint>>
+
+(* ph.set_group_velocity(q_length) (3495-3505, deprecated): a GroupVelocity  *)
+(* object on the current dynamical matrix; q_length is kept for rebuilds     *)
+SetGV ==
+  /\ dm.on
+  /\ gv' = "cur"
+  /\ last' = [op |-> "SetGV"]
+  /\ UNCHANGED <<layout, nacm, massS, massU, dsT, dsF, dm, scd, cp, held, taint, rs>>
 
 -----------------------------------------------------------------------------
 (* ENVIRONMENT                                                               *)
@@ -309,8 +424,9 @@ MutateHandle(i) ==
                /\ scd' = IF sl = "ds" THEN Age(scd) ELSE scd
                /\ massS' = IF sl = "mass" THEN "old" ELSE IF sl = "massS" THEN "old" ELSE massS
                /\ massU' = IF sl = "mass" THEN "old" ELSE IF sl = "massU" THEN "old" ELSE massU
+               /\ rs' = IF sl \in {"fc", "nac", "mass"} THEN Aged(rs, sl, TRUE, FALSE) ELSE rs
           ELSE /\ held' = hs
-               /\ UNCHANGED <<taint, dm, scd, massS, massU>>
+               /\ UNCHANGED <<taint, dm, scd, massS, massU, rs>>
   /\ last' = [op |-> "MutateHandle", i |-> i]
   /\ UNCHANGED <<layout, nacm, dsT, dsF, gv, cp>>
 
@@ -318,7 +434,7 @@ Drop(i) ==
   /\ i \in 1..Len(held)
   /\ held' = [j \in 1..(Len(held) - 1) |-> IF j < i THEN held[j] ELSE held[j + 1]]
   /\ last' = [op |-> "Drop", i |-> i]
-  /\ UNCHANGED <<layout, nacm, massS, massU, dsT, dsF, dm, gv, scd, cp, taint>>
+  /\ UNCHANGED <<layout, nacm, massS, massU, dsT, dsF, dm, gv, scd, cp, taint, rs>>
 
 (* the caller sets masses on the COPY                                        *)
 MutateCopy ==
@@ -328,22 +444,22 @@ MutateCopy ==
   /\ massU' = IF cp.shared THEN "old" ELSE massU
   /\ taint' = IF cp.shared THEN taint \cup {"copy_shares"} ELSE taint
   /\ last' = [op |-> "MutateCopy"]
-  /\ UNCHANGED <<layout, nacm, massS, dsT, dsF, dm, gv, scd, held>>
+  /\ UNCHANGED <<layout, nacm, massS, dsT, dsF, dm, gv, scd, held, rs>>
 
 EnvLabels == {"MutateHandle", "Drop", "MutateCopy"}
 EnvNext == (\E i \in 1..MaxHeld : MutateHandle(i) \/ Drop(i)) \/ MutateCopy
 
 OpNext ==
-  \/ \E lay \in Layouts, keep \in BOOLEAN : SetFC(lay, keep)
+  \/ \E lay \in Layouts, keep \in BOOLEAN, own \in BOOLEAN : (keep \/ own) /\ SetFC(lay, keep, own)
   \/ \E m \in {"wang", "gonze"}, keep \in BOOLEAN : SetNAC(m, keep)
   \/ ClearNAC
   \/ \E keep \in BOOLEAN : SetMasses(keep)
   \/ \E chg \in BOOLEAN : Symmetrize(chg) \/ SymmetrizeSG(chg) \/ Cutoff(chg)
   \/ \E f \in BOOLEAN, typ \in {"t1", "t2"}, keep \in BOOLEAN : SetDataset(f, typ, keep)
-  \/ SetDisplacements
+  \/ SetDisplacements \/ ClearDataset
   \/ \E keep \in BOOLEAN : SetForces(keep)
   \/ \E lay \in Layouts : ProduceFC(lay)
-  \/ GetSCD \/ Copy
+  \/ GetSCD \/ Copy("copy") \/ Copy("ph2ph") \/ InitRD \/ SetGV
   \/ \E c \in Getters : Get(c)
   \/ \E k \in QueryKinds : Query(k)
 
@@ -352,16 +468,6 @@ Spec == Init /\ [][Next]_vars
 
 -----------------------------------------------------------------------------
 (* REQUIREMENT                                                               *)
-
-(* what a freshly constructed object given the current force constants, NAC  *)
-(* parameters and masses answers to a query of kind k: it is built from      *)
-(* exactly the current contents                                              *)
-Want(k) == [fc |-> "cur", nac |-> "cur", cls |-> ClassOf(nacm),
-            gv |-> IF UsesGV(k) THEN "cur" ELSE "na"]
-(* what this object answers: determined by what its caches were built from   *)
-Got(k) == LET d == DmAfterQuery(k)
-          IN [fc |-> IF d.cls = "gonze" THEN d.sr ELSE d.fc, nac |-> d.nac, cls |-> d.cls,
-              gv |-> IF UsesGV(k) THEN GvAfterQuery(k) ELSE "na"]
 
 TypeOK ==
   /\ layout \in {"none", "full", "compact"} /\ nacm \in {"none", "wang", "gonze"}
@@ -375,7 +481,13 @@ DmExists == HasFC => dm.on
 (* the caches were built from the current contents                           *)
 Coherent == dm.on => /\ dm.fc = "cur" /\ dm.nac = "cur" /\ dm.cls = ClassOf(nacm)
                      /\ dm.sr # "old" /\ gv # "stale"
-FreshEquivalent == \A k \in QueryKinds : QueryEnabled(k) => Got(k) = Want(k)
+(* every query that the object accepts is answered from the current contents:  *)
+(* a result OBTAINED BEFORE a state change may be old (rs.qp, rs.tp, and a     *)
+(* computed mesh read back), a query RUN AFTER it must be current or refused   *)
+FreshEquivalent == \A k \in QueryKinds \ {"meshdict"} : QueryEnabled(k) => Got(k) = Want(k)
+(* reading back the mesh: old results are fine if they were computed before   *)
+(* the change, not if the (lazy) mesh computes them now                      *)
+LazyMeshCurrent == (rs.mesh.st # "none" /\ rs.mesh.kind # "run") => rs.mesh.st = "cur"
 MassesConsistent == massS = "cur" /\ massU = "cur"
 ScdCoherent == scd # "old"
 CopyIndependent == cp.on => (~cp.shared /\ cp.ok)
@@ -404,6 +516,6 @@ Alias_unitcell_getter == NotRetained("unitcell_getter")
 Alias_copy_shares == cp.on => ~cp.shared
 (* the environment never changes what the object answers from                *)
 EnvFrame == [][last'.op \in EnvLabels =>
-                 UNCHANGED <<layout, nacm, massS, massU, dsT, dsF, dm, gv, scd>>]_vars
+                 UNCHANGED <<layout, nacm, massS, massU, dsT, dsF, dm, gv, scd, rs>>]_vars
 NoTaint == taint = {}
 =============================================================================
